@@ -184,6 +184,12 @@ class Fn:
                     if hk and hk[0].get("kind") == "VarDecl" and hk[0]["type"]["qualType"] == "const std::exception &":
                         self.catch_std = True
                         self.handler_ok = self.handler_returns_handle(hk[-1], hk[0]["id"])
+            # the reviewed handler list is exactly [catch (const std::exception &)]: any other handler
+            # (e.g. `catch (const primitiv::Error &) { return OK; }` in front of it, or `catch (...)`) takes
+            # exceptions away from ErrorHandler::handle -> a row that theorem all_try_blocks rejects
+            if len(ks) != 2:
+                self.handler_ok = False
+                self.extra_handlers = len(ks) - 2
         else:
             main = body
         self.top = main
@@ -739,6 +745,14 @@ def analyse():
     return fns, facts, thread_local_handler(), files
 
 
+def _atomic_write(path, text):
+    """write through a temporary file of this process and rename: a concurrent reader never sees a half-written file"""
+    tmp = "%s.tmp.%d" % (path, os.getpid())
+    with open(tmp, "w") as f:
+        f.write(text)
+    os.replace(tmp, path)
+
+
 def main():
     fns, facts, tl, files = analyse()
     if len(fns) < 10:
@@ -747,8 +761,7 @@ def main():
     os.makedirs(os.path.dirname(OUT_V), exist_ok=True)
     old = open(OUT_V).read() if os.path.exists(OUT_V) else None
     if old != txt:           # keep the timestamp when nothing changed (no needless recompilation)
-        with open(OUT_V, "w") as f:
-            f.write(txt)
+        _atomic_write(OUT_V, txt)
     os.makedirs(os.path.dirname(OUT_JSON), exist_ok=True)
     js = {"repo": REPO, "functions": [
         {"name": f.name, "file": f.path, "line": f.line,
@@ -760,8 +773,7 @@ def main():
          "try": f.has_try, "catch_std": f.catch_std, "handler": f.handler_ok, "rets": f.rets,
          "unreadable": getattr(f, "error", None)} for f in fns],
         "helpers": facts, "thread_local": tl}
-    with open(OUT_JSON, "w") as f:
-        json.dump(js, f, indent=1)
+    _atomic_write(OUT_JSON, json.dumps(js, indent=1))
     return js
 
 
